@@ -419,7 +419,7 @@ def breadth_files(seed):
 
 
 def plan(tier, seed):
-    n, ns = (80, 4) if tier == "quick" else (2600, 12)
+    n, ns = (64, 4) if tier == "quick" else (2600, 12)
     jobs = [{"prop": PROP, "mode": "sched", "i": i, "nsched": ns, "want_dep": tier != "quick", "seed": H(seed, tier, PROP, "sched", i)} for i in range(n)]
     nr = 30 if tier == "quick" else 600
     nc = len([p for p, s in workload.corpus() if os.sep + "corpus" + os.sep in p and p.startswith(workload.HERE)])
@@ -536,7 +536,7 @@ def exotic_own_cases():
             for o in r[6]:
                 if o in dom and o not in ("case", "indent_size", "length"):
                     for v in dom[o]:
-                        if v not in ("yes", "no", "require_blank_line"):
+                        if v not in ("yes", "no", "require_blank_line", "no_blank_line"):
                             out.append((p, r[0], o, v))
     return out
 
